@@ -72,6 +72,7 @@ func pktEv(end, kind string, p *types.Packet) logEv {
 // ---------------------------------------------------------------- stream
 
 var errTorn = errors.New("verif: stream torn down")
+var errPeerGone = errors.New("verif: peer has gone away")
 var errInjected = errors.New("verif: injected stream fault")
 
 type streamCfg struct {
@@ -116,6 +117,8 @@ type endpoint struct {
 	rngMu    sync.Mutex
 	rng      *rand.Rand
 	outOnce  sync.Once
+	peer     *endpoint
+	gone     chan struct{} // closed when the function using this end has returned: the peer's sends fail from then on
 	// hook called with every packet delivered to this end (after unmarshal), may block (gates)
 	onRecv func(*types.Packet)
 	onSend func(*types.Packet)
@@ -127,12 +130,15 @@ func newPipe(ctx context.Context, cfg *streamCfg, log *evLog) (*endpoint, *endpo
 	sh := &pipeShared{torn: make(chan struct{}), log: log}
 	s := &endpoint{name: "S", ctx: ctx, in: c2, out: c1, sh: sh, cfg: cfg, failSend: cfg.FailSendS, failRecv: cfg.FailRecvS, rng: rand.New(rand.NewSource(cfg.Seed*2 + 1))}
 	r := &endpoint{name: "R", ctx: ctx, in: c1, out: c2, sh: sh, cfg: cfg, failSend: cfg.FailSendR, failRecv: cfg.FailRecvR, rng: rand.New(rand.NewSource(cfg.Seed*2 + 2))}
+	s.gone = make(chan struct{})
+	r.gone = make(chan struct{})
+	s.peer, r.peer = r, s
 	return s, r, sh
 }
 
 func (e *endpoint) Context() context.Context { return e.ctx }
 
-func (e *endpoint) closeSend() { e.outOnce.Do(func() { close(e.out) }) }
+func (e *endpoint) closeSend() { e.outOnce.Do(func() { close(e.out); close(e.gone) }) }
 
 func (e *endpoint) pause() {
 	if e.cfg.DelayUS > 0 {
@@ -181,6 +187,8 @@ func (e *endpoint) SendMsg(m interface{}) error {
 		return nil
 	case <-e.sh.torn:
 		return errTorn
+	case <-e.peer.gone:
+		return errPeerGone
 	}
 }
 
